@@ -145,6 +145,8 @@ enum Op {
     /// two extra threads build over shared nodes in one inference context
     SharedContext(u64),
     DropShared,
+    /// sits a round out (staggered participation)
+    Idle,
 }
 
 fn dig(tag: &str, parts: &[&[u8]]) -> u64 {
@@ -282,6 +284,7 @@ fn run_op(op: &Op, prog: &[u8], wit: &[u8], mine: &mut Option<Arc<RedeemNode>>, 
             *mine = None;
             2
         }
+        Op::Idle => 0,
     }
 }
 
@@ -521,7 +524,52 @@ fn gen_workload(verif_seed: u64, wl: u64) -> Workload {
                 break b.redeem.to_vec_with_witness();
             }
         };
-        let plans: Vec<Vec<Op>> = (0..3).map(|t| if t == 2 { vec![Op::Exec, Op::Prune] } else { vec![Op::Exec, Op::Exec] }).collect();
+        // warm-up, then stampede: in round 0 one thread executes alone, in round 1 all three enter
+        // execution together (rounds are barrier-aligned, see `main`), then once more with a prune
+        let plans: Vec<Vec<Op>> = (0..3)
+            .map(|t| match t {
+                0 => vec![Op::Exec, Op::Exec, Op::Exec],
+                1 => vec![Op::Idle, Op::Exec, Op::Exec],
+                _ => vec![Op::Idle, Op::Exec, Op::Prune],
+            })
+            .collect();
+        return Workload { prog, wit, plans };
+    }
+    if wl == 2 {
+        // marathon: four threads on one tiny shared program, so that machines, trackers, contexts
+        // and node graphs are created and dropped many times while other threads are inside the
+        // same library entry points (whatever process-wide state those entry points keep is then
+        // met warm by a crowd, not only cold as in the first-use storm)
+        let (prog, wit) = loop {
+            let rec = if r.bool() { programs::limited_jet_recipe(&mut r, 2, &jets) } else { programs::jetfree_recipe(&mut r, 3) };
+            if let Some(b) = programs::build(&rec) {
+                break b.redeem.to_vec_with_witness();
+            }
+        };
+        // pairs of rounds per operation kind: a warm-up round in which one (seeded) thread runs
+        // the operation alone, then a stampede round in which all four run it at once
+        let mut plans: Vec<Vec<Op>> = vec![Vec::new(); 4];
+        for _ in 0..4 {
+            let warm = r.usize_below(4);
+            let mk = |r: &mut Rng, k: usize| match k {
+                0 => Op::Exec,
+                1 => Op::Prune,
+                2 => Op::Decode,
+                3 => Op::Roots,
+                4 => Op::ToConstruct,
+                5 => Op::Unfinalize,
+                6 => Op::DecodeCommit,
+                7 => Op::Build(r.next_u64()),
+                _ => Op::Values(r.next_u64()),
+            };
+            let k = r.weighted(&[5, 2, 2, 1, 1, 1, 1, 1, 1]);
+            for (t, p) in plans.iter_mut().enumerate() {
+                p.push(if t == warm { mk(&mut r, k) } else { Op::Idle });
+            }
+            for p in plans.iter_mut() {
+                p.push(mk(&mut r, k));
+            }
+        }
         return Workload { prog, wit, plans };
     }
     let (prog, wit) = loop {
@@ -582,7 +630,13 @@ fn main() {
         let prog = Arc::new(w.prog);
         let wit = Arc::new(w.wit);
         let mut hs = Vec::new();
+        // contention alignment: the k-th operations of all threads start together (a barrier per
+        // round), so that identical library entry points are entered at nearly the same instant
+        // and Miri's preemptions land while several threads are inside the same few lines
+        let rounds = w.plans.iter().map(|p| p.len()).max().unwrap_or(0);
+        let barrier = Arc::new(std::sync::Barrier::new(w.plans.len()));
         for (t, ops) in w.plans.iter().enumerate() {
+            let barrier = Arc::clone(&barrier);
             let ops = ops.clone();
             let mut mine = shared.clone();
             let (prog, wit) = (Arc::clone(&prog), Arc::clone(&wit));
@@ -592,7 +646,9 @@ fn main() {
                 if !share && !prog.is_empty() {
                     mine = decode(&prog, &wit);
                 }
-                for (k, op) in ops.iter().enumerate() {
+                for k in 0..rounds {
+                    barrier.wait();
+                    let Some(op) = ops.get(k) else { continue };
                     let d = run_op(op, &prog, &wit, &mut mine, true);
                     if expect.get(k) != Some(&d) {
                         println!(
